@@ -67,6 +67,7 @@ fn least_free(v: &View) -> usize {
 
 // BOUND: register table of at most 4 entries before the call
 // FN: RegisterAllocator::alloc
+// ALSO: C02
 #[kani::proof]
 #[kani::unwind(7)]
 fn c03_register_alloc() {
@@ -115,6 +116,7 @@ fn c03_register_alloc_persistent() {
 
 // BOUND: register table of at most 4 entries
 // FN: RegisterAllocator::dealloc, RegisterAllocator::alloc
+// ALSO: C02
 #[kani::proof]
 #[kani::unwind(7)]
 fn c03_register_dealloc() {
@@ -141,6 +143,7 @@ fn c03_register_dealloc() {
 // EXPECT-PANIC: Trying to deallocate a persistent register
 // BOUND: register table of at most 4 entries
 // FN: RegisterAllocator::dealloc
+// ALSO: C02
 #[kani::proof]
 #[kani::should_panic]
 #[kani::unwind(7)]
@@ -155,6 +158,7 @@ fn c03_register_dealloc_persistent_panics() {
 /// (here: 3 allocs interleaved with a dealloc, from the empty allocator).
 // BOUND: the fixed sequence alloc, alloc, dealloc(first|second), alloc_persistent, alloc from the empty allocator
 // FN: RegisterAllocator::finish, RegisterAllocator::alloc, RegisterAllocator::dealloc
+// ALSO: C02
 #[kani::proof]
 #[kani::unwind(7)]
 fn c03_register_count_bounds_every_operand() {
